@@ -43,16 +43,19 @@ def _final_tuple_components(fn):
     if not (isinstance(v, ast.Call) and call_name(v) == 'hash' and v.args and isinstance(v.args[0], ast.Tuple)):
         return None, r
     for el in v.args[0].elts:
-        txts = [norm(el)]
-        for nm, val, how, d in sl.origins(el, node):
-            if val is not None:
-                txts.append(norm(val))
+        # the expressions feeding the element, read through nested / private helpers (arguments substituted)
+        txts = [norm(x) for x in origins_through_helpers(_PROGREF[0], fn, el, node)] if _PROGREF[0] is not None else \
+            [norm(el)] + [norm(val) for nm, val, how, d in sl.origins(el, node) if val is not None]
         # nested helper functions referenced in the element
         parts.append((norm(el), ' '.join(txts)))
     return parts, r
 
 
+_PROGREF = [None]
+
+
 def hash_completeness(ctx, rule='A8'):
+    _PROGREF[0] = ctx.prog
     for meth in ('__hash__', 'fingerprint'):
         fn = ctx.fn(f'{DSG}.{meth}')
         parts, r = _final_tuple_components(fn)
